@@ -68,6 +68,11 @@ package prefix
 //@   loop 6: invariant optn6(resp.(*dhcpv6.Message)) == atentry(optn6(resp.(*dhcpv6.Message)))
 // C09: every prefix allocated while answering this IA_PD is in the list that is recorded for the client
 //@   loop 6: invariant[C09:every-new-lease-is-recorded] (newLeases == nil ==> alloc_ok == atentry(alloc_ok)) && (newLeases != nil ==> len(newLeases) == len(knownLeases) + (alloc_ok - atentry(alloc_ok)))
+// C08: what is handed out and recorded for a new lease is the block the allocator returned
+//@   assert[C08,C09:new-lease-is-the-allocated-block] before "addPrefix(iapdResp, l)": l$2.Prefix.IP == allocated.IP && l$2.Prefix.Mask == allocated.Mask
+//@   assert[C08,C09:new-lease-is-the-allocated-block] before "append(newLeases, l)": l$2.Prefix.IP == allocated.IP && l$2.Prefix.Mask == allocated.Mask
+// C09: the extended lease list is in the table, under the client's key, when the lock is released
+//@   assert[C09:new-leases-are-recorded] before "h.Unlock()": newLeases != nil ==> (has(h.Records, duidwire(client)) && h.Records[duidwire(client)] == newLeases)
 // C09: a hint that carries no address is an empty hint (it must not be compared with ::)
 //@   assert[C09:addressless-hint-is-empty] before "h.Prefix.IP.Equal(net.IPv6zero)": h$3.Prefix.IP != nil
 
